@@ -45,7 +45,7 @@ def context_of(guards, fn_name):
 def run(ctx):
     core = ctx.core
     S.TEMPLATES = None
-    S.INLINE = None
+    S.INLINE = S.default_inline(core)
     ctx.not_decided += ["the fold law for reduce beyond accumulator threading", "behaviour of a given callback (only how it is called)"]
     sites = []
     for fn in (BINOP, BCALL, EVAL):
